@@ -81,6 +81,19 @@ CHECKS['C02'] = dict(
    technique="TLA+ step machine = contracts (TLC) + spec->code replay of every terminal state",
    ref="5/C02")
 
+CHECKS['C03'] = dict(
+   text="AbbrAttrs.tla: every sequence of up to 3 (thorough: 4, simulated: 7) attribute mentions over 22 shapes (#id, .class, valueless, "
+        "raw/double/single quoted, empty, boolean mark, listed boolean, implied with and without value, expression, class=/id=, "
+        "values containing > and *). TLC checks that the merge machine (one action per mention) equals the loop-free contract "
+        "(position of first mention, class values joined in written order, last value - first under reverseAttributes), that no "
+        "name is emitted twice, and computes for six option rows (html/xml/jsx/vue x quotes x case x compactBoolean x "
+        "selfClosingStyle) the attribute list the printer must emit. Every vector is expanded by the real code under the rows and the "
+        "printed tag's (name, quote, value) list read by the independent lexer must be equal.",
+   note="Statement-silent mention sequences (flag computed by the spec) are generated but not judged. Snippet-provided attributes "
+        "are covered by C14. Trusted: TLC, tag lexer.",
+   technique="TLA+ merge machine = contract (TLC) + spec->code replay under option rows",
+   ref="5/C03")
+
 NOT_YET = {}
 
 def main():
